@@ -349,6 +349,27 @@ func runC20(c *core.Ctx) {
 			r.Undecide(rule, ssax.FuncName(f), r.fpos(f), fmt.Sprintf("only %d cache-key uses found", n))
 		}
 	}
+
+	// a parameter the resolver rejects makes the whole bind fail: on both binding paths the error of every
+	// resolve*Param call reaches the caller (it is not shadowed, dropped, or followed by a success return)
+	{
+		rule := "c20.resolve-error-propagates"
+		n := 0
+		for _, f := range r.P.ModuleFuncs("pkg/bydbql") {
+			for _, in := range ssax.Find(f, func(in ssa.Instruction) bool {
+				c, ok := in.(*ssa.Call)
+				if !ok {
+					return false
+				}
+				nm := ssax.CalleeName(c.Common())
+				return strings.HasPrefix(nm, "pkg/bydbql.resolve") && (strings.HasSuffix(nm, "Param") || strings.HasSuffix(nm, "Elements"))
+			}) {
+				n++
+				r.errorNeverSwallowed(rule, f, in.(*ssa.Call), "a parameter of a type or shape the position does not accept (binary data in a list, an empty array, a timestamp where an id is expected) is spliced as a zero value instead of rejecting the statement: the bound statement differs in shape from what the template says")
+			}
+		}
+		r.Floor(rule, 8)
+	}
 }
 
 // flowsFromAnyParamOnly: v is a parameter (possibly loaded through a spill cell) — the callee received an
